@@ -183,7 +183,7 @@ def main(tier):
     accepted = 0; events = 0; trace_files = []
     for i in range(ntr):
         p = os.path.join(gcdir, "trace_%d.ndjson" % i)
-        r = subprocess.run([exe, "gctrace", str(rnd.randrange(1, 1 << 30)), str(nops), "24", "400", p], stdout=subprocess.PIPE, text=True, timeout=600)
+        r = subprocess.run([exe, "gctrace", str(rnd.randrange(1, 1 << 30)), str(nops), "40", "400", p], stdout=subprocess.PIPE, text=True, timeout=600)
         if r.returncode != 0:
             vlib.tool_error("gctrace failed")
         info = json.loads(r.stdout.strip().splitlines()[-1])
@@ -218,7 +218,7 @@ def main(tier):
         shards.append(lines)
     if trace_files:
         # a prefix of a recorded long history (crosses the 256-slot chunk boundary)
-        tl = trace_to_compact(trace_files[0], 24, 400)
+        tl = trace_to_compact(trace_files[0], 40, 400)
         shards[0] = tl[:1 + (900 if quick else 4000)]
     t0 = time.time()
     mcalls, merrs = run_miri(shards, timeout=900 if quick else 5000)
